@@ -1,6 +1,7 @@
 pub mod containers;
 pub mod disasm;
 pub mod json;
+pub mod pipeline;
 pub mod types;
 pub mod value;
 pub mod vm;
@@ -13,6 +14,8 @@ pub fn generate(family: &str, seed: u64, n: usize, tier: &str, emit: &mut dyn Fn
         "word" => value::generate_word(seed, n, tier, emit),
         "vm" => vm::generate(seed, n, tier, emit),
         "vm2" => vm::generate2(seed, n, tier, emit),
+        "pipeline" => pipeline::generate(seed, n, tier, emit),
+        "orders" => pipeline::generate_orders(seed, n, tier, emit),
         "json" => json::generate(seed, n, tier, emit),
         "merge" => types::generate_merge(seed, n, tier, emit),
         "unify" => types::generate_unify(seed, n, tier, emit),
@@ -30,6 +33,8 @@ pub fn eval(family: &str, payload: &str) -> String {
         "word" => value::eval_word(payload),
         "vm" => vm::eval(payload),
         "vm2" => vm::eval2(payload),
+        "pipeline" => pipeline::eval(payload),
+        "orders" => pipeline::eval_orders(payload),
         "json" => json::eval(payload),
         "merge" => types::eval_merge(payload),
         "unify" => types::eval_unify(payload),
